@@ -121,6 +121,7 @@ def run_check(prop, tier, fn, level="other", technique=""):
   t0 = time.time()
   seed = int(os.environ.get("VERIF_SEED", "0") or 0)
   rep = Report(prop, tier)
+  incomplete = None
   os.makedirs(EVIDENCE_DIR, exist_ok=True)
   evidence_path = os.path.join(EVIDENCE_DIR, "%s.json" % prop)
   try:
@@ -136,10 +137,17 @@ def run_check(prop, tier, fn, level="other", technique=""):
               "%d confirmed by hand on the reference tree (vacuous pass "
               "refused)" % (rule, got, minimum))
   except AnalysisError as e:
-    print("ANALYSIS-ERROR property=%s %s" % (prop, e))
-    _write_evidence(evidence_path, rep, level, seed, t0, technique,
-                    status="analysis-error: %s" % e)
-    return 2
+    if not rep.findings:
+      print("ANALYSIS-ERROR property=%s %s" % (prop, e))
+      _write_evidence(evidence_path, rep, level, seed, t0, technique,
+                      status="analysis-error: %s" % e)
+      return 2
+    # the run could not be completed, but rules that did run found
+    # something: those findings are reported (a violation of a rule does not
+    # become 'no verdict' because a later rule could not be evaluated)
+    incomplete = str(e)
+    print("ANALYSIS-NOTE property=%s run incomplete after %d finding(s): %s"
+          % (prop, len(rep.findings), e))
   except Exception as e:  # pylint: disable=broad-except
     tb = traceback.format_exc()
     sys.stderr.write(tb)
@@ -206,6 +214,12 @@ def run_check(prop, tier, fn, level="other", technique=""):
     print("VIOLATION property=%s replay=%s" % (prop, path))
   rep.extra["known_findings_matched"] = [
       "%s %s %s" % (f.rule, f.unit, f.construct) for f, _ in known_hits]
+  if incomplete is not None and not violations:
+    # only known findings so far and the run did not finish: no verdict
+    print("ANALYSIS-ERROR property=%s %s" % (prop, incomplete))
+    _write_evidence(evidence_path, rep, level, seed, t0, technique,
+                    status="analysis-error: %s" % incomplete)
+    return 2
   _write_evidence(evidence_path, rep, level, seed, t0, technique,
                   status="ok" if not violations else "violations",
                   violations=len(violations))
